@@ -1365,8 +1365,14 @@ func makeStructArshaler(t reflect.Type) *arshaler {
 					var numMatch int
 					for _, f2 := range fields.lookupByFoldedName(name) {
 						if f2.matchFoldedName(name, &uo.Flags) {
-							if f == nil {
+							switch {
+							case f == nil:
 								f = f2 // use first seen name by breadth-first order
+							case uo.Flags.Get(jsonflags.ReportErrorsWithLegacySemantics) &&
+								cmp.Or(cmp.Compare(f2.index0, f.index0), slices.Compare(f2.index, f.index)) < 0:
+								// For historical reasons, v1 silently used the first
+								// match by depth-first order (i.e., Go field index order).
+								f = f2
 							}
 							numMatch++
 						}
